@@ -26,6 +26,7 @@ type Obligation struct {
 	Secs    float64
 	Output  string
 	Cover   bool
+	AbsPrefix bool // discharge with the prefix order abstracted (generated code)
 	// language lemma (decided by the reglang back end)
 	LangLeft, LangRight *Re
 	Witness             string
@@ -55,6 +56,9 @@ type Engine struct {
 	langUsed      map[string]bool
 	globalInit    map[types.Object]ast.Expr
 	cvObj         int
+	effCache      map[string]*Contract
+	prop          string // property being checked (clauses tagged {Cxx} apply only to it)
+	genInfo       map[string]*genInfo
 }
 
 func NewEngine(repo string) *Engine {
@@ -62,7 +66,7 @@ func NewEngine(repo string) *Engine {
 		funcDecls: map[string]*ast.FuncDecl{}, funcPkg: map[string]*packages.Package{},
 		trusted: map[string]bool{}, havocked: map[string]bool{}, rejected: map[string]string{},
 		globalsRO: map[types.Object]bool{}, usedLemmas: map[string]bool{}, usedContracts: map[string]bool{}, langUsed: map[string]bool{},
-		langs: NewLangEnv()}
+		langs: NewLangEnv(), genInfo: map[string]*genInfo{}, effCache: map[string]*Contract{}}
 }
 
 const modulePath = "github.com/a-h/templ"
@@ -199,4 +203,27 @@ func (e *Engine) LemmasFor(prop string) []*Lemma {
 
 func (e *Engine) addObl(o *Obligation) {
 	e.obls = append(e.obls, o)
+}
+
+// applies reports whether a clause is active for the property being checked.
+func (e *Engine) applies(c *Clause) bool {
+	if len(c.Props) == 0 {
+		return true
+	}
+	for _, p := range c.Props {
+		if p == e.prop {
+			return true
+		}
+	}
+	return false
+}
+
+func (e *Engine) activeClauses(cs []*Clause) []*Clause {
+	var out []*Clause
+	for _, c := range cs {
+		if e.applies(c) {
+			out = append(out, c)
+		}
+	}
+	return out
 }
